@@ -1145,6 +1145,30 @@ def run(ctx, rep):
     check_format_signature(fx, rep, "C16.4")
     import api_rules as AR
     AR.check_getters(fx, rep, "C16.api", "mapper::DeobfuscatedSignature")
+    # `parameters_types()` is how "one Java type per descriptor parameter, in order" is observed: every stored parameter, in
+    # stored order, each as it is (an iterator over `self.parameters`, un-adapted but for an element-wise `as_ref`/`as_str`)
+    pt_ = A.method(fx, "mapper::DeobfuscatedSignature", "parameters_types")
+    p_pt = A.one(rep, "C16.api", "DeobfuscatedSignature::parameters_types", pt_)
+    if p_pt:
+        rep.fn(p_pt)
+        import models as M_pt
+        try:
+            res_pt = S.Sym(fx).eval_body(fx.bodies[p_pt])
+        except S.Undecidable:
+            res_pt = []
+        it_pt = ("call", "core::slice::iter", (mk_field(("in", "self"), "parameters"),))
+        good_pt = False
+        if len(res_pt) == 1 and not res_pt[0][0].conds and not res_pt[0][0].effects:
+            v_pt = res_pt[0][1][1]
+            if v_pt == it_pt:
+                good_pt = True
+            elif v_pt[0] == "call" and v_pt[1] == "std::iter::Iterator::map" and v_pt[2][0] == it_pt and v_pt[2][1][0] in ("closure", "fnref"):
+                try:
+                    good_pt = M_pt.closure_term(S.Sym(fx), v_pt[2][1], 1, S.St(), {"sp": "?"}) == ("bound", 0)
+                except S.Undecidable:
+                    good_pt = False
+        rep.check("C16.api", "C16.api/accessor/parameters_types", good_pt, loc=F.short_file(fx.bodies[p_pt]["sp"]),
+                  found=[S.tstr(o_[1])[:200] for s_, o_ in res_pt], expected="iter(self.parameters) with each element as it is (no skip/take/rev/filter)")
     if all(e2e.values()):
         n = R2.check_twins(fx, rep, "C16.5", only=("deobfuscate_signature", "byte_code_type_to_java_type", "deobfuscate_bytecode_signature"))
         rep.floor("C16.5", n, 1, "twin pairs")
